@@ -28,7 +28,7 @@ Section Fixed.
   Definition entry_ok (kr : key * expr) : Prop :=
     match fst kr with
     | KTask t c a => exists E0 d0, cur_val d0 a = true /\ sem t c a E0 d0 = Ret (snd kr)
-    | KCatch _ _ _ => True
+    | KCatch e r _ => snd kr = e \/ exists x, snd kr = ECall r (EVal (VErr x))
     end.
   Definition InvC (C : cache) : Prop := Forall entry_ok C.
 
@@ -43,10 +43,14 @@ Section Fixed.
   Lemma catch_set_id : forall k r s, catch_set V k r s = s.
   Proof. intros. unfold catch_set. now rewrite Vcc. Qed.
 
+  Lemma InvC_catch_set : forall k r s, InvC (s_cache s) -> entry_ok (k, r) -> InvC (s_cache (catch_set V k r s)).
+  Proof. clear Vcc. intros. unfold catch_set. destruct (v_catch_cache V); [constructor|]; auto. Qed.
+
   (** * Every recording step preserves the invariant; values stay current *)
   Lemma eval_pres : forall n s e, InvC (s_cache s) -> cur d e = true ->
     InvC (s_cache (snd (ev n s e))) /\ (forall v, fst (ev n s e) = Ok v -> cur_val d v = true).
   Proof.
+    clear Vcc.   (* holds with or without catch's private entry *)
     induction n as [|n IH]; intros s e HI Hc; [simpl; split; [auto|discriminate]|].
     destruct e as [v|t a|a b|i a|e0 r c0]; simpl in Hc |- *.
     - split; [auto|]. now intros v' [= <-].
@@ -71,8 +75,7 @@ Section Fixed.
       specialize (Hv1 va eq_refl).
       destruct va; simpl in *; try (split; [auto|discriminate]).
       split; [auto|]. intros v [= <-]. apply andb_true_iff in Hv1 as [? ?]. destruct i; auto.
-    - (* ECatch: no private entry in this variant *)
-      rewrite Vcc.
+    - (* ECatch, with or without the private entry *)
       assert (Hrec : forall s1 x, InvC (s_cache s1) ->
                 let out := if Nat.eqb x TYPEERR then (Err x, s1) else
                   match ev n s1 (ECall r (EVal (VErr x))) with
@@ -82,9 +85,32 @@ Section Fixed.
       { intros s1 x HI1. simpl. destruct (Nat.eqb x TYPEERR); [split; [auto|discriminate]|].
         destruct (IH s1 (ECall r (EVal (VErr x))) HI1 eq_refl) as [HI2 Hv2].
         destruct (ev n s1 (ECall r (EVal (VErr x)))) as [[v|y|] s2]; simpl in *; try (split; [auto|discriminate]).
-        rewrite catch_set_id. split; [auto|]. intros v' [= <-]. auto. }
-      destruct (IH s e0 HI Hc) as [HI1 Hv1]. destruct (ev n s e0) as [[v|x|] s1]; simpl in *.
-      + rewrite catch_set_id. split; [auto|]. intros v' [= <-]. auto.
+        split; [apply InvC_catch_set; [auto|red; simpl; eauto]|]. intros v' [= <-]. auto. }
+      assert (Hmiss : InvC (s_cache (snd (match ev n s e0 with
+                  | (Ok v, s1) => (Ok v, catch_set V (KCatch e0 r c0) e0 s1)
+                  | (Err x, s1) => (if Nat.eqb x TYPEERR then (Err x, s1) else
+                      match ev n s1 (ECall r (EVal (VErr x))) with
+                      | (Ok v, s2) => (Ok v, catch_set V (KCatch e0 r c0) (ECall r (EVal (VErr x))) s2)
+                      | other => other end)
+                  | other => other end))) /\
+                (forall v, fst (match ev n s e0 with
+                  | (Ok v, s1) => (Ok v, catch_set V (KCatch e0 r c0) e0 s1)
+                  | (Err x, s1) => (if Nat.eqb x TYPEERR then (Err x, s1) else
+                      match ev n s1 (ECall r (EVal (VErr x))) with
+                      | (Ok v, s2) => (Ok v, catch_set V (KCatch e0 r c0) (ECall r (EVal (VErr x))) s2)
+                      | other => other end)
+                  | other => other end) = Ok v -> cur_val d v = true)).
+      { destruct (IH s e0 HI Hc) as [HI1 Hv1]. destruct (ev n s e0) as [[v|x|] s1]; simpl in *.
+        + split; [apply InvC_catch_set; [auto|red; simpl; auto]|]. intros v' [= <-]. auto.
+        + apply Hrec; auto.
+        + split; [auto|discriminate]. }
+      destruct (v_catch_cache V); [|exact Hmiss].
+      destruct (lookup (KCatch e0 r c0) (s_cache s)) as [ce|] eqn:Hl; [|exact Hmiss].
+      assert (Hce : cur d ce = true).
+      { apply lookup_In in Hl. pose proof (proj1 (Forall_forall _ _) HI _ Hl) as Hent. red in Hent. simpl in Hent.
+        destruct Hent as [->|[x ->]]; auto. }
+      destruct (IH s ce HI Hce) as [HI1 Hv1]. destruct (ev n s ce) as [[v|x|] s1]; simpl in *.
+      + split; auto.
       + apply Hrec; auto.
       + split; [auto|discriminate].
   Qed.
@@ -119,8 +145,8 @@ Section Fixed.
           apply IH; [apply sim_refl|apply InvC_upd; auto|auto|]. eapply sem_fresh; eauto. }
         rewrite get_cache_spec. destruct (lookup _ _) as [r0|] eqn:Hl; [|exact Hexec].
         rewrite Vpv. destruct (valid true E d r0) eqn:Hvd; [|exact Hexec].
-        apply lookup_In in Hl. unfold InvC in Ht1. rewrite Forall_forall in Ht1. specialize (Ht1 _ Hl).
-        red in Ht1. simpl in Ht1. destruct Ht1 as (E0 & d0 & Hca & Hsem).
+        apply lookup_In in Hl. pose proof (proj1 (Forall_forall _ _) Ht1 _ Hl) as Hent.
+        red in Hent. simpl in Hent. destruct Hent as (E0 & d0 & Hca & Hsem).
         pose proof (valid_cur _ _ _ Hvd) as Hcr.
         destruct (sem_local _ _ _ _ _ E d _ Hsem Hca Hv1 Hcr) as (r' & Hs' & Hsim).
         rewrite Hs'. apply IH; auto. }
